@@ -8,7 +8,9 @@ import json, os, subprocess, sys, time
 V = os.path.dirname(os.path.dirname(os.path.abspath(__file__)))
 PY = os.path.join(V, ".venv/bin/python")
 EXTRA = {"C05_m2": ["c04"], "C10_m1": ["c04"], "C10_m2": ["c04"], "C11_m1": ["c12"], "C11_m2": ["c12"], "C16_m2": ["c06"],
-         "C10_m4": ["c05"], "C10_m3": ["c04"], "C05_m6": ["c03"], "C08_m6": ["c09"], "C02_m6": ["c13"], "C13_m6": ["c10"], "C12_m5": ["c13"], "C05_m5": ["c03"], "C10_m5": ["c05", "c04"], "C10_m6": ["c04"], "C11_m5": ["c10"], "C11_m6": ["c13", "c12"], "C08_m5": ["c06"], "C10_m7": ["c04"], "C10_m8": ["c04"], "C05_m7": ["c04"], "C05_m8": ["c04"], "C11_m7": ["c12"], "C13_m7": ["c10", "c12"], "C13_m8": ["c04"], "C16_m8": ["c06"], "C09_m8": ["c08"], "C04_m7": ["c13"], "C03_m7": ["c08"], "C02_m9": ["c07"], "C05_m9": ["c04"], "C10_m9": ["c03"], "C10_m10": ["c04"], "C11_m9": ["c05"], "C11_m10": ["c04"], "C08_m9": ["c03"], "C16_m9": ["c06"], "C16_m10": ["c07"], "C15_m10": ["c14"], "C15_m9": ["c06"], "C13_m10": ["c11", "c10"], "C09_m9": ["c08"]}
+         "C10_m4": ["c05"], "C10_m3": ["c04"], "C05_m6": ["c03"], "C08_m6": ["c09"], "C02_m6": ["c13"], "C13_m6": ["c10"], "C12_m5": ["c13"], "C05_m5": ["c03"], "C10_m5": ["c05", "c04"], "C10_m6": ["c04"], "C11_m5": ["c10"], "C11_m6": ["c13", "c12"], "C08_m5": ["c06"], "C10_m7": ["c04"], "C10_m8": ["c04"], "C05_m7": ["c04"], "C05_m8": ["c04"], "C11_m7": ["c12"], "C13_m7": ["c10", "c12"], "C13_m8": ["c04"], "C16_m8": ["c06"], "C09_m8": ["c08"], "C04_m7": ["c13"], "C03_m7": ["c08"], "C02_m9": ["c07"], "C05_m9": ["c04"], "C10_m9": ["c03"], "C10_m10": ["c04"], "C11_m9": ["c05"], "C11_m10": ["c04"], "C08_m9": ["c03"], "C16_m9": ["c06"], "C16_m10": ["c07"], "C15_m10": ["c14"], "C15_m9": ["c06"], "C13_m10": ["c11", "c10"], "C09_m9": ["c08"],
+         "C01_m12": ["c13"], "C05_m11": ["c04"], "C05_m12": ["c04"], "C08_m12": ["c03"], "C10_m11": ["c03"], "C10_m12": ["c04"], "C11_m11": ["c04", "c05"], "C11_m12": ["c04", "c05"],
+         "C13_m11": ["c16"], "C13_m12": ["c02"], "C16_m11": ["c06"], "C16_m12": ["c07"]}
 
 
 def sh(*a, **kw):
